@@ -323,6 +323,19 @@ def onObs (m : Mon) (label : String) (ok : Bool) (membership : Bool) (prev : Opt
       if !(label == "reserve" || label == "update" || label == "leave" || label == "new" || label == "burst-end") &&
          !(p.players.map (·.id) == o.players.map (·.id)) then ["C03.player-list-changed-without-a-membership-call"] else []
     | none => []
+  -- a player who has just brought chips in (re-buy, add-on) is one the seat manager counts as having chips: that flag is
+  -- what makes a busted player eligible again
+  let v5r : List String :=
+    if (label == "reserve" || label == "redeem") && ok then
+      match argNat m.lastArgs "id", o.sm with
+      | some id, some sm =>
+        (match o.players.find? (·.id == id) with
+         | some q => (match sm.seats q.seat with
+            | some sp => if decide (q.bankroll > 0) && !sp.hasChips then ["C05.player-who-brought-chips-in-not-marked-as-having-chips"] else []
+            | none => [])
+         | none => [])
+      | _, _ => []
+    else []
   -- ---- per label
   let (m, vl) : Mon × List String :=
     if label == "fire.opened" then
@@ -481,6 +494,6 @@ def onObs (m : Mon) (label : String) (ok : Bool) (membership : Bool) (prev : Opt
          then ["C12.hand-blinds-changed-while-the-hand-runs"] else [])
       else []
     | none => []
-  (m, v3 ++ v3a ++ v3b ++ v1 ++ vl ++ vh)
+  (m, v3 ++ v3a ++ v3b ++ v1 ++ v5r ++ vl ++ vh)
 
 end TBSpec
